@@ -20,7 +20,7 @@ TESTED_ONLY = {
  'C03': ['d.d = 0 and boundary() of chains on complexes built out of contract (views oracle after every step); shapes, entries, cofaces = inverse of faces and basis = points of the closure are proved for every history, d.d = 0, boundary() = mod-2 sum and boundary of a boundary = [] for every complex that meets the vertex-set reading'],
  'C04': ['lookup by faces beyond 4 points; disjoint() beyond 3 points and for 4-tuples; returned names having the Python type they were created with (oracle c04); subsets / supersets / 2^(k+1)-1 members / lookup by basis are proved for every complex that meets the vertex-set reading, sortedness by order and the exclude_self / reverse variants of closureOf and partOf for every history'],
  'C05': ['continuation after a rejected call for requests with generated names / fresh dictionaries (twin-history oracle, up to generated names); atomicity of addSimplexWithBasis / relabel beyond the cases proved; a classification-complete invalid <=> rejected'],
- 'C06': ['invariance under insertion order / copies / decoding (oracle c06-inv); the boundary operators being those of the stored complex is C03; the rank formula, orders above the maximum, Euler-Poincare, independence of names and betti 0 = number of connected components are proved'],
+ 'C06': ["that decoding / deleting / re-inserting yields the same family in a concrete run (oracle c06-inv); the rank formula, orders above the maximum, Euler-Poincare, independence of names, betti 0 = number of connected components, and that the Betti numbers depend only on the family of vertex sets (same family => same Betti numbers; a copy has its source's) are proved"],
  'C07': ['nothing of the statement is left to testing alone: shape and rank of the normal form, count, cycles (on the matrix and through boundary()) and independence are proved on the model; the oracle c07 ties them to the code'],
  'C08': ['that the *code* does not write through numpy views or shared dictionaries (before/after oracle on every call); heap frames of constructors other than copy'],
  'C09': ['freshness (ownership of attribute dictionaries) of flagComplex / vietorisRipsComplex results and contents of Filtration.copy; follow-up mutation scripts on either side (oracles fresh, same-content, unchanged, deepcopy-filt); names / orders / faces / attribute values of copy() and that copy() never fails are proved; contents of flag / VR results are C11 / C12'],
@@ -33,7 +33,7 @@ TESTED_ONLY = {
  'C16': ['merged attribute values, target complexes (oracle c16); result = union, accepted => compatible and compatible => accepted (for complexes that meet the vertex-set reading) are proved'],
  'C17': ['the JSON text layer (json.dumps / loads, files), name types, nested / unicode attribute values, wrapping in other JSON, filtrations (oracle c17); the structural round trip and acceptance of every encoding by the decoder are proved at the level of the encoded records'],
  'C18': ['Betti numbers beyond k = 6; skeleton / ring / lattice on arbitrary targets beyond 3 points; requested name / attributes of the top simplex on non-empty targets (oracle c18); k_simplex / k_void in vertex sets with the frame clause and their binomial counts are proved for every k and every target that meets the vertex-set reading'],
- 'C19': ['additivity over disjoint unions, input unchanged, complexes built out of contract (oracle c19); the level-set and simplex-wise formulas with the default value are proved for every complex that meets the vertex-set reading, Euler characteristic = alternating Betti sum for every history'],
+ 'C19': ['input unchanged, complexes built out of contract, that a composition of name-disjoint complexes is a disjoint union with the attribute values (oracle c19); the level-set and simplex-wise formulas with the default value and additivity over disjoint unions are proved for every complex that meets the vertex-set reading, Euler characteristic = alternating Betti sum for every history'],
  'C20': ['positionsOf / len / in against the complex (oracle c20); Euclidean distance and lattice positions on arbitrary doubles: the binary64 model is compared bit for bit with the code on every run, not proved about real numbers'],
 }
 
